@@ -297,9 +297,14 @@ def pathCount (toks : List Tok) : Nat := (toks.filter (· == .cap .path)).length
 
 def hasKind (k : Kind) (toks : List Tok) : Bool := toks.contains (.cap k)
 
-/-- the field strings have the widths the decoder's pattern expects (4-digit year, 10-digit unix …). -/
-def fieldsOK (F : Fields) : Bool :=
-  [Kind.Y, .m, .d, .H, .M, .S, .f, .z, .s].all fun k => capOK k (val F k)
+/-- the field strings the encoder writes for the placeholders of this format have the widths the decoder's
+pattern expects (4-digit year, 10-digit unix seconds, 2-digit month … — true for every instant between
+2001-09-09 and 2286-11-20 whose year has four digits). -/
+def fieldsOK (toks : List Tok) (F : Fields) : Bool :=
+  toks.all fun
+    | .lit _ => true
+    | .cap .path => true
+    | .cap k => capOK k (val F k)
 
 /-- `conf.IsValidPathName` (see C06) restricted to what matters here: no newline. -/
 def pathOK (p : Bytes) : Bool := p.all (· != 10)
@@ -315,5 +320,56 @@ def repeatedMismatch (toks : List Tok) (s : Bytes) : Bool :=
   match matchCode toks s with
   | some m => !consistent m.caps
   | none => false
+
+/-! ### variants of `Decode`, and notions used by the theorems -/
+
+/-- `Decode`'s matching step.  `anch = false, coh = false` is the code as written; `anch = true` is the
+regex anchored with `^…$`; `coh = true` additionally rejects a match in which a repeated placeholder
+captured different texts. -/
+def decodeV (anch coh : Bool) (toks : List Tok) (s : Bytes) : Option Match :=
+  match (if anch then matchAnchored toks s else matchCode toks s) with
+  | some m => if coh && !consistent m.caps then none else some m
+  | none => none
+
+/-- a name written from an assignment of texts to placeholders. -/
+def encodeA (toks : List Tok) (A : Kind → Bytes) : Bytes :=
+  toks.flatMap fun
+    | .lit b => [b]
+    | .cap k => A k
+
+/-- the captures a decoder must find in `encodeA toks A`. -/
+def capsOf (toks : List Tok) (A : Kind → Bytes) : Caps :=
+  toks.filterMap fun
+    | .lit _ => none
+    | .cap k => some (k, A k)
+
+/-- the assignment the encoder uses. -/
+def assign (p : Bytes) (F : Fields) : Kind → Bytes
+  | .path => p
+  | k => val F k
+
+/-- tokens of the format after the path name has been substituted, if no splice happened. -/
+def expand (toks : List Tok) (p : Bytes) : List Tok :=
+  toks.flatMap fun
+    | .cap .path => p.map .lit
+    | t => [t]
+
+/-- substituting the name and then tokenising = tokenising and then substituting
+(false e.g. for `%%path` with a name starting with `s`: the `%` and the name form a new `%s`). -/
+def spliceFree (fmt p : Bytes) : Bool := tokenize (substPath fmt p) == expand (tokenize fmt) p
+
+/-- the `time.Date`/`time.Unix` arguments a faithful decoder derives from a name encoded from `F`. -/
+def expectedStart (toks : List Tok) (F : Fields) : Start :=
+  let micros := if hasKind .f toks then F.micros else 0
+  if hasKind .s toks ∧ F.unix > 0 then .unix (F.unix * 1000000 + micros)
+  else .date {
+    year := if hasKind .Y toks then F.year.toNat else 0,
+    month := if hasKind .m toks then F.month else 1,
+    day := if hasKind .d toks then F.day else 1,
+    hour := if hasKind .H toks then F.hour else 0,
+    minute := if hasKind .M toks then F.minute else 0,
+    sec := if hasKind .S toks then F.sec else 0,
+    micros := micros,
+    loc := if hasKind .z toks then some (zoneDec (zoneEnc F.off)) else none }
 
 end MtxVerif.C26
